@@ -135,4 +135,7 @@ def hessian(poly: PolyLike) -> ndpoly:
                      [0, 0, 2*q0]]])
 
     """
-    return gradient(gradient(poly))
+    poly = numpoly.aspolynomial(poly)
+    grad, _ = numpoly.align_indeterminants(gradient(poly), poly.indeterminants)
+    polys = [derivative(grad, diffvar)[numpy.newaxis] for diffvar in poly.names]
+    return numpoly.concatenate(polys, axis=0)
